@@ -22,34 +22,63 @@ from ..ref import fortran
 ID = 'C14'
 LEVEL = 'fault_enumeration'
 CRASH_IS_VIOLATION = True
-RULE = ('One case = one small reference-encoded file (<= ~3 KB: uamiv, '
+RULE = ('One case = one small reference-encoded file (<= ~3 KB): CAMx uamiv, '
         'lateral_boundary, temperature, height_pressure, humidity, '
-        'vertical_diffusivity, one3d, wind, cloud_rain; 1-2 species, nx<=3, '
-        'ny<=2 (lateral_boundary >=2), nz<=2, 2-3 steps (sometimes 1), start '
-        'dates weighted to roll-overs, payload ramp/random bits/special) '
-        'drawn by Hypothesis plus a fixed list of one canonical file per '
-        'format.  For EVERY prefix length 0 <= k < size the prefix is '
-        'written to a fresh scratch path (never mapped while written), '
-        'opened with the memmap reader and every variable is read; maps are '
-        'released (del + gc.collect) after each offset; a reader that exceeds '
-        '2000 RecordFile.next calls / 10000 timerange yields on one prefix is '
-        'reported as non-terminating (no wall clock).  Oracle per offset: '
-        'an exception at open or read is accepted; otherwise the reader '
-        'must expose m <= (number of steps completely contained in the '
-        'prefix) <= n steps, LAY/ROW/COL as in the full file, and TFLAG, '
-        'ETFLAG and every variable restricted to steps 0..m-1 must equal the '
-        'independent model of the full file bit for bit.  Offsets are '
-        'classified header / marker / mid-record / record-boundary / '
-        'step-boundary; per case the first offending offset of each (clause,'
-        ' class) is reported; evidence labels offsets:<class> give the '
-        'number of offsets evaluated per class (summed over cases), '
-        'outcome:* the number of offsets that raised / exposed m steps.  '
-        'A file is non-trivial if every offset class occurs in it.  The '
-        'cut-point space of each file is exhausted; files are sampled.')
+        'vertical_diffusivity, one3d, wind, cloud_rain (1-2 species, nx<=3, '
+        'ny<=2 (lateral_boundary >=2), nz<=2, 2-3 steps (sometimes 1) of 1, 2, '
+        '3, 24 or 48 hours, start dates weighted to roll-overs) or GEOS-Chem '
+        'bpch (1 file in 5: 1-2 tracers in 1-2 diagnostic categories, 1-3 x '
+        '1-2 cells, 1-2 layers, 1-3 time blocks, with tracerinfo.dat / '
+        'diaginfo.dat next to it; encoded by vf/ref/bpch_ref.py; read by '
+        'bpch1 = format "bpch" or by the block-walking bpch2 = format '
+        '"bpch2", unscaled); payload ramp / random finite bits / special '
+        'pool.  Files are drawn by Hypothesis, plus a fixed list of two '
+        'canonical files per format.  For EVERY prefix length 0 <= k < size '
+        'the prefix is written to a fresh private scratch file (never mapped '
+        'while written), opened with the memmap reader in the default mode '
+        '"r" and every variable is read; maps are released (del + '
+        'gc.collect) after each offset.  Readers whose constructor accepts '
+        'an open mode (uamiv, lateral_boundary, bpch1) are additionally '
+        'opened with mode="r+" on another fresh copy of the prefix (numpy '
+        'may extend a short file on disk in that mode) for a deterministic '
+        'subset of offsets: every offset in the last step / time block, '
+        'every record and step boundary, and every 5th offset elsewhere; '
+        'labels rplus-offsets:* / rplus-outcome:* count them separately and '
+        'rplus:file-changed-size-on-open counts prefixes whose size on disk '
+        'changed during the open.  A reader exceeding 2000 RecordFile.next '
+        'calls / 10000 timerange yields on one prefix is reported as '
+        'non-terminating (no wall clock).  Oracle per offset and mode, '
+        'always against the independent model of the FULL file (never the '
+        'prefix on disk): an exception at open or read is accepted; '
+        'otherwise CAMx: the reader exposes m <= n steps, LAY/ROW/COL as in '
+        'the full file, and TFLAG, ETFLAG and every variable restricted to '
+        'steps 0..m-1 equal the full file bit for bit; bpch: the data block '
+        'is the atomic unit (files whose diagnostics have different numbers '
+        'of time blocks are valid), so time = m <= n, every exposed tracer '
+        'variable has m_v leading time blocks with m_v <= the number of its '
+        'data blocks completely inside the prefix, bit-identical to the full '
+        'file, tau0/tau1 of the m blocks identical, no variable that is not '
+        'in the file; a tracer that is absent or shorter than another is '
+        'counted (outcome:bpch-fewer-tracers / bpch-ragged), not judged.  '
+        'Offsets are classified header / marker / mid-record / '
+        'record-boundary / step-boundary (= time-block boundary for bpch); '
+        'per case the first offending offset of each (clause, class, mode) '
+        'is reported; labels offsets:<class> (all formats) and '
+        'bpch-offsets:<class> give the number of offsets evaluated in mode '
+        '"r", outcome:* the number that raised / exposed m steps.  A file is '
+        'non-trivial if every offset class occurs in it.  The cut-point '
+        'space of each file is exhausted in mode "r"; the "r+" pass covers '
+        'the stated subset; files are sampled.')
 EXHAUSTIVE_NOTE = ('exhaustive over the cut offsets 0..size-1 of every file '
-                   'evaluated; the space of files is sampled')
+                   'evaluated, opened in mode "r"; the additional mode "r+" '
+                   'pass covers a stated deterministic subset of offsets; '
+                   'the space of files is sampled')
 ASSUMPTIONS = ['vf.ref.camx_ref / vf.camxspec.model_of give the true content '
                'of the full file (validated by vf.ref.selfcheck)',
+               'vf.ref.bpch_ref (validated by its own selfcheck against the '
+               'repository sample) gives the true content of bpch files; '
+               'tables have a comment header and >= 2 rows (the other table '
+               'shapes are C18 findings)',
                'a prefix of a valid file is what an interrupted run or copy '
                'leaves behind (no holes)']
 BUDGET = {'quick': dict(examples=320, max_s=200, shrink_cap=40),
@@ -85,7 +114,8 @@ class Expected(object):
 
 class Plugin(object):
     def __init__(self, encode, expected, open_and_read, layout, tag=None,
-                 judge=None, prepare=None, steps_dim='TSTEP'):
+                 judge=None, prepare=None, steps_dim='TSTEP', modes=('r',)):
+        self.modes = modes                  # open modes the reader accepts
         self.tag = tag                      # (spec, Obs) -> str symptom tag
         self.judge = judge                  # (spec, exp, obs, complete, k)
         self.prepare = prepare              # (spec, dir): auxiliary files
@@ -109,8 +139,12 @@ def camx_expected(spec):
     return e
 
 
-def camx_open_and_read(spec, path):
-    f = C.open_lib(spec, path, 'memmap')
+def camx_open_and_read(spec, path, mode='r'):
+    if mode == 'r':
+        f = C.open_lib(spec, path, 'memmap')
+    else:
+        MM = C.lib_modules()[0]
+        f = getattr(MM, spec['fmt'])(path, mode=mode)
     try:
         o = Obs()
         for d in list(f.dimensions.keys()):
@@ -186,13 +220,16 @@ def camx_tag(spec, o):
 
 
 PLUGINS = {}
+RW_FORMATS = ('uamiv', 'lateral_boundary')   # Memmap __init__ takes mode
 for _f in CAMX_FORMATS:
     PLUGINS[_f] = Plugin(C.ref_bytes, camx_expected, camx_open_and_read,
-                         camx_layout, camx_tag)
+                         camx_layout, camx_tag,
+                         modes=('r', 'r+') if _f in RW_FORMATS else ('r',))
 BPCH_FORMATS = ['bpch', 'bpch2']      # bpch1 memmap reader, block walker
 for _f in BPCH_FORMATS:
     PLUGINS[_f] = Plugin(BP.encode, BP.expected, BP.open_and_read, BP.layout,
-                         BP.tag, BP.judge, BP.prepare, steps_dim='time')
+                         BP.tag, BP.judge, BP.prepare, steps_dim='time',
+                         modes=('r', 'r+') if _f == 'bpch' else ('r',))
 
 
 # ------------------------------------------------------------------ strategy
@@ -308,6 +345,86 @@ def judge(spec, exp, o, complete, k=None):
     return [(x[0], x[1], x[2] if len(x) > 2 else '') for x in out]
 
 
+def _inc(counts, key):
+    counts[key] = counts.get(key, 0) + 1
+
+
+def probe(spec, plug, judge_fn, sdim, exp, raw, k, cls, complete, ends, mode,
+          base_dir, counts, first):
+    """one prefix length, one open mode.  The prefix is written to a fresh
+    private file (an open in mode 'r+' may modify or extend it), the reader's
+    view is judged against the model of the FULL file, the file is deleted."""
+    fmt = spec['fmt']
+    size = len(raw)
+    pre = '' if mode == 'r' else 'rplus-'
+    _inc(counts, pre + 'offsets:' + cls)
+    if fmt in BPCH_FORMATS:
+        _inc(counts, pre + 'bpch-offsets:' + cls)
+    base = [cls] + (['r+'] if mode != 'r' else [])
+    if k <= ends[0]:
+        base.append('step1')     # nothing beyond the first step
+    path = os.path.join(base_dir, 'cut%d%s.bin' % (k, 'w' if mode != 'r'
+                                                   else ''))
+    with open(path, 'wb') as fo:
+        fo.write(raw[:k])
+    C.reset_guards()
+    o = None
+    try:
+        try:
+            o = plug.open_and_read(spec, path) if mode == 'r' else \
+                plug.open_and_read(spec, path, mode)
+        except C.NonTermination as e:
+            first.setdefault(('nontermination', '/'.join(base), exc_where(e)),
+                             (k, 'prefix of %d of %d bytes: %s' % (k, size,
+                                                                    e)))
+            return
+        except (KeyboardInterrupt, SystemExit, MemoryError, HarnessError):
+            raise
+        except Exception:   # an error is an accepted outcome (property)
+            _inc(counts, pre + 'outcome:raise')
+            if fmt in BPCH_FORMATS:
+                _inc(counts, pre + 'bpch-outcome:raise')
+            return
+        finally:
+            if mode != 'r':
+                try:
+                    if os.path.getsize(path) != k:
+                        _inc(counts, 'rplus:file-changed-size-on-open')
+                except OSError:
+                    pass
+        if C.tripped():
+            first.setdefault(('nontermination', '/'.join(base), ''),
+                             (k, 'prefix of %d of %d bytes: iteration budget '
+                              'exhausted' % (k, size)))
+            return
+        m_ = o.dims.get(sdim)
+        key = 'outcome:steps=%s' % (m_,) \
+            if isinstance(m_, (int, np.integer)) \
+            else 'outcome:steps=non-integer'
+        _inc(counts, pre + key)
+        if fmt in BPCH_FORMATS:
+            _inc(counts, pre + 'bpch-' + key)
+        verdicts = judge_fn(spec, exp, o, complete, k)
+        if not verdicts and isinstance(m_, (int, np.integer)) and \
+                m_ > complete and fmt not in BPCH_FORMATS:
+            _inc(counts, pre + 'outcome:last-step-lacks-only-marker-or-dummy')
+        ptag = plug.tag(spec, o) if plug.tag else ''
+        if ptag and fmt in BPCH_FORMATS:
+            _inc(counts, pre + 'outcome:bpch-' + ptag)
+        for clause, msg, sym in verdicts:
+            tags = '/'.join(base + [t for t in (ptag, sym) if t])
+            first.setdefault((clause, tags, ''), (
+                k, 'prefix of %d of %d bytes opened with mode %r (%s; %d '
+                'complete steps): %s' % (k, size, mode, cls, complete, msg)))
+    finally:
+        o = None
+        gc.collect(1)
+        try:
+            os.remove(path)
+        except OSError:
+            pass
+
+
 def check_case(spec):
     r = Result()
     fmt = spec['fmt']
@@ -334,75 +451,18 @@ def check_case(spec):
     seen_cls = set()
     first = {}          # (clause, class) -> (k, message)
     counts = {}
-    path = None
+    last_start = ends[-2] if len(ends) > 1 else hend
     for k in range(size):
         cls = classify(k, sp, hend, ends)
         seen_cls.add(cls)
-        counts['offsets:' + cls] = counts.get('offsets:' + cls, 0) + 1
-        if fmt in BPCH_FORMATS:
-            counts['bpch-offsets:' + cls] = \
-                counts.get('bpch-offsets:' + cls, 0) + 1
         complete = sum(1 for e in ends if e <= k)
-        path = os.path.join(base_dir, 'cut%d.bin' % k)
-        with open(path, 'wb') as fo:
-            fo.write(raw[:k])
-        C.reset_guards()
-        o = None
-        try:
-            try:
-                o = plug.open_and_read(spec, path)
-            except C.NonTermination as e:
-                first.setdefault(('nontermination', cls + (
-                    '/step1' if k <= ends[0] else ''), exc_where(e)),
-                    (k, 'prefix of %d of %d bytes: %s' % (k, size, e)))
-                continue
-            except (KeyboardInterrupt, SystemExit, MemoryError,
-                    HarnessError):
-                raise
-            except Exception:   # an error is an accepted outcome (property)
-                counts['outcome:raise'] = counts.get('outcome:raise', 0) + 1
-                if fmt in BPCH_FORMATS:
-                    counts['bpch-outcome:raise'] = \
-                        counts.get('bpch-outcome:raise', 0) + 1
-                continue
-            if C.tripped():
-                first.setdefault(('nontermination', cls + (
-                    '/step1' if k <= ends[0] else ''), ''),
-                    (k, 'prefix of %d of %d bytes: iteration budget '
-                     'exhausted' % (k, size)))
-                continue
-            key = 'outcome:steps=%s' % (o.dims.get(sdim),) \
-                if isinstance(o.dims.get(sdim), (int, np.integer)) \
-                else 'outcome:steps=non-integer'
-            counts[key] = counts.get(key, 0) + 1
-            if fmt in BPCH_FORMATS:
-                counts['bpch-' + key] = counts.get('bpch-' + key, 0) + 1
-            verdicts = judge_fn(spec, exp, o, complete, k)
-            m_ = o.dims.get(sdim)
-            if not verdicts and isinstance(m_, (int, np.integer)) and \
-                    m_ > complete and fmt not in BPCH_FORMATS:
-                counts['outcome:last-step-lacks-only-marker-or-dummy'] = \
-                    counts.get('outcome:last-step-lacks-only-marker-or-dummy',
-                               0) + 1
-            base = [cls]
-            if k <= ends[0]:
-                base.append('step1')     # nothing beyond the first step
-            ptag = plug.tag(spec, o) if plug.tag else ''
-            if ptag and fmt in BPCH_FORMATS:
-                counts['outcome:bpch-' + ptag] = \
-                    counts.get('outcome:bpch-' + ptag, 0) + 1
-            for clause, msg, sym in verdicts:
-                tags = '/'.join(base + [t for t in (ptag, sym) if t])
-                first.setdefault((clause, tags, ''), (
-                    k, 'prefix of %d of %d bytes (%s; %d complete steps): %s'
-                    % (k, size, cls, complete, msg)))
-        finally:
-            o = None
-            gc.collect(1)
-            try:
-                os.remove(path)
-            except OSError:
-                pass
+        for mode in plug.modes:
+            if mode != 'r' and not (k >= last_start or k % 5 == 2 or
+                                    cls in ('record-boundary',
+                                            'step-boundary')):
+                continue      # deterministic subset for the 'r+' pass
+            probe(spec, plug, judge_fn, sdim, exp, raw, k, cls, complete,
+                  ends, mode, base_dir, counts, first)
     gc.collect()
     shutil.rmtree(base_dir, ignore_errors=True)
     for (clause, cls, where), (k, msg) in sorted(
